@@ -210,7 +210,7 @@ def run(tape, prop, tier):
         try:
             await d.run(stop_signals=[])
             out["o"] = "returned"
-        except Exception as e:
+        except (Exception, asyncio.CancelledError) as e:
             out["o"] = f"raised {type(e).__name__}: {e}"
         st.cancel()
         out["model"] = model()
